@@ -269,6 +269,10 @@ def pc_conditional(df, by, on, group_weights=None):
 
 def varpc_n(n):
     "Variance estimator for Simpson's index"
+    n = ensure_numpy(n)
+    if n.dtype.kind in "iu":
+        # n(n-1)(n-2) and N(N-1)(N-2) overflow int64 for counts above ~2e6
+        n = n.astype(float)
     N = np.sum(n)
     p2_hat = np.sum(n * (n - 1)) / (N * (N - 1))
     p3_hat = np.sum(n * (n - 1) * (n - 2)) / (N * (N - 1) * (N - 2))
